@@ -1,4 +1,5 @@
 import Duckling.Model.Interp
+import Duckling.Lemmas.LexName
 /-
   C20 — identifier rules are enforced uniformly and accepted names are usable.
 
@@ -10,9 +11,16 @@ import Duckling.Model.Interp
                                  `is_var`, and nothing is stored (the result is an error: there is no state);
   * `C20_sys_not_assignable`    a `$`-prefixed name fails `is_var … false`, so none of the constructs can define it;
   * `C20_exist_iff`             EXIST succeeds iff the name is a key of the visible variables.
-  Readability of accepted names in expressions (the scanner's keyword matching, for every set of
-  simultaneously defined names) is validated by the correspondence and the exhaustive short-name
-  enumeration only — `partial`; names related to TRUE/FALSE are the known finding D14.
+  * `C20_readable`              **accepted names are usable**: for EVERY set of variables in scope — names that are prefixes or extensions
+                                 of one another included, any number of them — the text of an accepted name that is in scope evaluates to that
+                                 variable's value (`Tokenizer.tokenize`: the character scanner finds exactly one Variable token, then the lookup).
+                                 The keyword matcher keeps the set of names that still have the consumed text as a prefix; the theorem is that
+                                 invariant, by induction over the scanner's character loop (`lex_name`), including the two ways the token ends
+                                 (the single remaining candidate is complete; the text ends while longer names are still candidates).
+                                 Proved for names whose first letter is not `T` or `F` (those first enter the Boolean class and back-track —
+                                 validated by the correspondence and the exhaustive short-name enumeration; names that are a prefix or an
+                                 extension of TRUE / FALSE are the known finding D14) — `partial` in that respect;
+  * `C20_readable_in_state`     the same for `evalIn` on an interpreter state.
 -/
 namespace Duckling.Props.C20
 open Duckling
@@ -104,5 +112,52 @@ theorem C20_exist_iff (ctx : Ctx) (c : ClsDesc) (name : Str) (line : Nat) (a : A
   · simp [runCompileLocal, hc, hh, h]
   · have h' : assocHas st.env.allVars a.str = false := by simpa using h
     simp [runCompileLocal, hc, hh, h', raise]
+
+/-- the first character of an accepted name, unless it is `T` or `F`, is declined by the string, number and Boolean classes -/
+theorem nameStart_of_acceptable (c : Char) (ha : acceptable c = true) (hd : isDigitC c = false) (hT : c ≠ 'T') (hF : c ≠ 'F') :
+    NameStart c := by
+  have hall : ∀ d ∈ Generated.acceptableVars.toList,
+      (isSpace d == false && (d == '"') == false && (d == '-') == false && (d == '.') == false) = true := by decide
+  have hmem : c ∈ Generated.acceptableVars.toList := by simpa [acceptable] using ha
+  have h := hall c hmem
+  simp only [Bool.and_eq_true, beq_iff_eq] at h
+  exact ⟨h.1.1.1, h.1.1.2, hd, h.1.2, h.2, by simpa using hT, by simpa using hF⟩
+
+theorem lookup_mem_keys (vars : VarEnv) (x : Str) (v : Val) (h : vars.lookup x = some v) : (vars.map (·.1)).contains x = true := by
+  induction vars with
+  | nil => simp at h
+  | cons kv rest ih =>
+    obtain ⟨k, w⟩ := kv
+    simp only [List.lookup] at h
+    split at h
+    · rename_i heq
+      have : x = k := by simpa using heq
+      simp [this]
+    · have := ih h
+      simp only [List.map_cons, List.contains_cons, this, Bool.or_true]
+
+/-- **an accepted name that is in scope reads back its value, whatever other names are in scope** -/
+theorem C20_readable (vars : VarEnv) (x : Str) (v : Val) (hvar : isVar x false = true) (hv : vars.lookup x = some v)
+    (hT : x.head? ≠ some 'T') (hF : x.head? ≠ some 'F') :
+    tokenize vars x = .ok v.normalise := by
+  obtain ⟨hne, hacc, hdig⟩ := (C20_accept_iff x).mp hvar
+  cases x with
+  | nil => exact absurd rfl hne
+  | cons c rest =>
+    have hc : NameStart c := nameStart_of_acceptable c (hacc c (by simp)) (hdig c rfl) (by simpa using hT) (by simpa using hF)
+    exact tokenize_name vars (c :: rest) v hv (lookup_mem_keys vars _ v hv) (by simp) (by simpa using hc)
+
+theorem C20_readable_in_state (ctx : Ctx) (pos : Pos) (st : St) (x : Str) (v : Val) (hvar : isVar x false = true)
+    (hv : st.env.allVars.lookup x = some v) (hT : x.head? ≠ some 'T') (hF : x.head? ≠ some 'F') :
+    evalIn ctx pos st x = .ok v.normalise := by
+  unfold evalIn
+  rw [C20_readable st.env.allVars x v hvar hv hT hF]
+  rfl
+
+/-- non-vacuity: `ab` among `a`, `ab`, `abc` (prefixes of one another) -/
+example : isVar "ab".toList false = true ∧
+    ([("a".toList, Val.int 1), ("ab".toList, Val.int 2), ("abc".toList, Val.int 3)] : VarEnv).lookup "ab".toList = some (.int 2) := by
+  refine ⟨by decide, ?_⟩
+  rfl
 
 end Duckling.Props.C20
